@@ -29,13 +29,16 @@ CHECKS = {
             'affinity of the pre-evolution snapshot.', '3/C02'),
     'C03': ('exploration',
             'differential runtime monitoring of two real executions '
-            '(one-at-a-time vs optimised batch vs re-processing), small-scope '
-            'enumeration + random walks',
+            '(one-at-a-time vs optimised batch vs re-processing vs the real '
+            'Evolver task pipeline), small-scope enumeration + random walks',
             'Every simulation-valid sequence of the scope is executed along '
-            'path A, B and B2 on identical databases; signatures, schemas, '
-            'rows and the mutation definitions are compared.',
-            'Bare AppMutator level; sequences whose unbatched execution '
-            'already fails are skipped.', '3/C03'),
+            'path A, B, B2 and P (Evolver.evolve() over evolution modules '
+            'discovered the normal way) on identical databases; signatures, '
+            'schemas, rows, recorded labels and the mutation definitions '
+            'are compared.',
+            'Sequences whose unbatched execution already fails are skipped; '
+            'enumerated inputs are judged against a committed per-input '
+            'baseline.', '3/C03'),
     'C11': ('exploration',
             'invariant at a hook: signature walker inside the wrapped '
             'run_simulation + foreign-key introspection after execution',
@@ -119,8 +122,9 @@ CHECKS = {
             'signal, pairing and payload, statement attribution, lock '
             'release, labels recorded iff evolved).',
             'Faults at every mutating statement of evolve() incl. '
-            'bookkeeping; statement attribution by generated table '
-            'ownership.', '3/C17'),
+            'bookkeeping, on single-batch upgrades and on hand-over '
+            'projects with real migrations; statement attribution by '
+            'generated table ownership.', '3/C17'),
     'C08': ('exploration',
             'offline log checker: recorded run histories (signals, Evolution '
             'rows, outcomes) against an executable model of the applied-log',
@@ -129,7 +133,10 @@ CHECKS = {
             'at most once, recorded exactly once with the right version, '
             'nothing recorded by failed runs, fresh installs execute '
             'nothing.',
-            'Clean edit subset; wipe/mark only as consistent pairs.',
+            'Clean edit subset plus data evolutions (SQLMutation marker '
+            'rows counted in the database); wipe / mark commands as pairs, '
+            'mark of a pending non-next label, wipe followed by an upgrade; '
+            'a run whose last task fails.',
             '3/C08'),
     'C12': ('exploration',
             'gate monitor: harness-side reachability by one-at-a-time '
